@@ -25,10 +25,14 @@ Od == <<E(8192, 0, NoVal)>> \o [i \in 1..Cardinality(Lens) |-> E(8193 + i, 0, No
 LenSeq == SetToSortSeq(Lens, LAMBDA a, b : a < b)
 Od2 == <<E(8192, 0, NoVal)>> \o [i \in 1..Cardinality(Lens) |-> E(8193 + i, 0, [j \in 1..LenSeq[i] |-> 100 + j])]
 
-Kinds == {"none", "drop", "late", "dup", "abort", "toggle", "cs", "mux", "stale"}
+Kinds == {"none", "drop", "late", "dup", "abort", "toggle", "cs", "mux", "muxsub", "stale"}
 OtherIdx == 4660
+\* stale frames: responses of an EARLIER transfer -- another object (different index and sub-index),
+\* the same index with another sub-index, the same sub-index with another index, or another phase
 StaleFrames == {DlInitResp(OtherIdx, 1), UlInitExp(OtherIdx, 1, <<9, 9>>), UlInitSeg(OtherIdx, 1, 9),
+                DlInitResp(OtherIdx, 0), UlInitExp(OtherIdx, 0, <<9, 9>>), DlInitResp(8192, 1),
                 DlSegResp(0), DlSegResp(1), UlSegResp(0, <<9, 9, 9>>, 1), UlSegResp(1, <<9>>, 0)}
+               \cup {UlInitExp(8193 + i, 1, <<9, 9>>) : i \in 1..Cardinality(Lens)}
 
 NoFault == [kind |-> "none", step |-> 0, s |-> <<>>]
 
@@ -85,12 +89,13 @@ Disturbed(r) ==   \* what the channel delivers for response r at the faulty step
       [] flt.kind = "toggle" -> <<[r EXCEPT ![1] = IF Tg(r) = 1 THEN r[1] - 16 ELSE r[1] + 16]>>
       [] flt.kind = "cs" -> <<[r EXCEPT ![1] = (r[1] % 32) + 32 * (IF Cs(r) = 3 THEN 5 ELSE Cs(r) + 1)]>>
       [] flt.kind = "mux" -> <<[r EXCEPT ![2] = (r[2] + 1) % 256]>>
+      [] flt.kind = "muxsub" -> <<[r EXCEPT ![4] = (r[4] + 1) % 256]>>
       [] flt.kind = "stale" -> <<flt.s, r>>
       [] OTHER -> <<r>>
 
 Applicable(r) ==
     CASE flt.kind = "toggle" -> cl.ph \in {"dlSeg", "ulSeg"}
-      [] flt.kind = "mux" -> cl.ph \in {"dlInit", "ulInit"}
+      [] flt.kind \in {"mux", "muxsub"} -> cl.ph \in {"dlInit", "ulInit"}
       [] flt.kind = "stale" -> ~LegalShape(cl, flt.s)
       [] OTHER -> TRUE
 
@@ -147,7 +152,7 @@ Finish == /\ cl.ph \in {"done", "aborted", "failed"} /\ ~sent
           /\ (xf = 1 /\ flt.kind # "none" =>
                 PrintT(<<"BEH", ToJson([op |-> cl.op, n |-> IF cl.op = "dl" THEN cl.dlen ELSE Len(v0),
                                          decl |-> cl.size >= 0, force |-> cl.force,
-                                         kind |-> flt.kind, step |-> flt.step, stale |-> IF flt.kind = "stale" THEN flt.s ELSE <<>>,
+                                         kind |-> flt.kind, step |-> flt.step, reqidx |-> cl.idx, stale |-> IF flt.kind = "stale" THEN flt.s ELSE <<>>,
                                          outcome |-> Outcome, hit |-> stepno > flt.step \/ cl.ph = "failed"])>>))
           /\ cl' = CliIdle
           \* a response that was delayed beyond the time-out arrives now (stale for the next transfer)
